@@ -92,8 +92,10 @@ func Run(r *core.Run, o Options) (*Result, error) {
 			}
 		}
 	}
-	if err := copyFile(filepath.Join(specDir, "cfg", o.Config), filepath.Join(dir, o.Config)); err != nil {
-		return nil, err
+	if _, generated := o.Files[o.Config]; !generated {
+		if err := copyFile(filepath.Join(specDir, "cfg", o.Config), filepath.Join(dir, o.Config)); err != nil {
+			return nil, err
+		}
 	}
 	for name, content := range o.Files {
 		if err := os.WriteFile(filepath.Join(dir, name), []byte(content), 0644); err != nil {
